@@ -295,6 +295,42 @@ def r18_5(run):
     ok = any(isinstance(n, ast.Call) and callee_attr(n) == 'split' for n in walk_unit(el)) and \
         any(isinstance(n, ast.Call) and dotted(n.func) == 'UNIXClientEndpoint' for n in walk_unit(el)) and any(isinstance(n, ast.Call) and dotted(n.func) == 'TCP4ClientEndpoint' for n in walk_unit(el))
     run.ob('R18.5', el, el.node, 'a SOCKSPort line maps to a unix or TCP endpoint ignoring option words', ok, slot='line-to-endpoint', message='_endpoint_from_socksport_line changed')
+    # both legs ignore trailing option words: on every path on which the line contains a blank, what reaches the endpoint
+    # constructor has been cut at the first blank (split()[0]) or at the closing quote - the whole remainder never does
+    ge = cfg_of(el)
+    lp = el.params[1]
+    ctor = ge.nodes_where(lambda n: any(isinstance(a, ast.Call) and dotted(a.func) in ('UNIXClientEndpoint', 'TCP4ClientEndpoint') for a in node_asts(n)))
+    run.floor('R18.5', 'endpoint constructors in _endpoint_from_socksport_line', len(ctor), 2)
+
+    def cuts(n):
+        if n.kind != 'stmt' or not isinstance(n.ast, ast.Assign):
+            return False
+        v = n.ast.value
+        return any(isinstance(x, ast.Subscript) and isinstance(x.value, ast.Call) and callee_attr(x.value) == 'split' and const(x.slice) == 0 for x in ast.walk(v)) or \
+            any(isinstance(x, ast.Call) and callee_attr(x) in ('index', 'find') and x.args and const(x.args[0]) == '"' for x in ast.walk(v))
+
+    def blank_hook(node, val, trail):
+        a = node.ast
+        if isinstance(a, ast.Compare) and const(a.left) == ' ' and isinstance(a.ops[0], ast.In):
+            return True
+        return None
+    kk = 0
+    for p_ in ge.paths(eval_hook=blank_hook, follow_exc=False):
+        run.paths_enumerated += 1
+        if p_.exit == 'raise':
+            continue
+        nodes = [n for n, _ in p_.steps]
+        hit = [n for n in nodes if n in ctor]
+        if not hit:
+            continue
+        kk += 1
+        cut = any(cuts(n) for n in nodes[:nodes.index(hit[0])])
+        kind = 'unix' if any(isinstance(a, ast.Call) and dotted(a.func) == 'UNIXClientEndpoint' for a in node_asts(hit[0])) else 'tcp'
+        run.ob('R18.5', el, hit[0].ast, 'option words after a %s SOCKSPort entry never reach the endpoint' % kind, cut, slot='options-stripped:%s' % kind,
+               message='_endpoint_from_socksport_line builds the %s endpoint from the whole remainder of a line that contains a blank: for '
+                       '"unix:/run/tor/socks WorldWritable" the endpoint points at a path that does not exist instead of the configured listener' % kind,
+               path=p_.describe(8))
+    run.floor('R18.5', 'constructor paths for a line with option words', kk, 2)
 
 
 def r18_6(run):
@@ -304,7 +340,28 @@ def r18_6(run):
     run.floor('R18.6', 'suspension points in the SOCKS selection coroutines', k, 6)
 
 
+def r18_7(run):
+    """The controller's default SOCKS endpoint is chosen by the discover-or-add logic and by nothing else: a shortcut that takes
+    the first configured line (TorConfig.socks_endpoint) skips the search for a *usable* listener."""
+    tor = run.idx.cls('Tor', 'controller')
+    if tor is None:
+        raise AnchorVanished('controller.Tor')
+    k = 0
+    for u in class_units(run.idx, tor):
+        for n in walk_unit(u):
+            if isinstance(n, ast.Assign) and 'self._socks_endpoint' in assigned_targets(n):
+                k += 1
+                v = n.value
+                inner = v.value if isinstance(v, (ast.Yield, ast.Await)) else v
+                ok = is_none(v) or (isinstance(inner, ast.Call) and dotted(inner.func) == '_create_socks_endpoint')
+                run.ob('R18.7', u, n, "the controller's SOCKS endpoint comes from _create_socks_endpoint", ok, slot='default-endpoint-source@%s' % u.short,
+                       message='%s sets the default SOCKS endpoint from %s: the first configured line is taken whether or not it is usable, and the '
+                               'discover-or-add logic is bypassed' % (u.short, src(v)[:60]))
+    run.floor('R18.7', 'assignments of Tor._socks_endpoint', k, 2)
+
+
 RULES = [
+    ('R18.7', 'who-may-choose: Tor._socks_endpoint is assigned only from _create_socks_endpoint', r18_7),
     ('R18.6', 'no dropped Deferred in the SOCKS selection coroutines (the SETCONF adding a port is awaited before the endpoint is returned)', r18_6),
     ('R18.1', 'integrity flow: values paired with SOCKSPort in the SETCONF reach it from the GETCONF answer through identity-preserving operations only, plus the new entry', r18_1),
     ('R18.1b', 'path completeness: the re-listed list is a single copy of the pre-strip list of existing ports', r18_1b),
@@ -317,6 +374,8 @@ RULES = [
 from ..selftest import M  # noqa: E402
 F, FC = 'txtorcon/endpoints.py', 'txtorcon/torconfig.py'
 MUTANTS = [
+    M('default-endpoint-first-line', 'txtorcon/controller.py', "        if self._socks_endpoint is None:\n            self._socks_endpoint = yield _create_socks_endpoint(self._reactor, self._protocol)", "        if self._socks_endpoint is None and self._config is not None:\n            self._socks_endpoint = self._config.socks_endpoint(self._reactor)\n        if self._socks_endpoint is None:\n            self._socks_endpoint = yield _create_socks_endpoint(self._reactor, self._protocol)", ['R18.7']),
+    M('unix-line-options-kept', FC, "        elif ' ' in path:\n            path = path.split()[0]\n", "", ['R18.5']),
     M('unix-or-tcp', F, "    for p in list(unix_ports) + list(tcp_ports):  # prefer unix-ports", "    for p in sorted(unix_ports) or sorted(tcp_ports):", ['R18.3']),
     M('tcp-group-left-out', F, "    for p in list(unix_ports) + list(tcp_ports):  # prefer unix-ports", "    for p in list(unix_ports):", ['R18.3']),
     M('setconf-not-awaited', F, "        yield control_protocol.set_conf(*args)", "        control_protocol.set_conf(*args)", ['R18.6']),
